@@ -4,7 +4,6 @@
    every `&buf[s..e]`, the `read_type(..).unwrap()` / `unreachable!()` of Filters and the
    `allele_count() - 1` of alternate_bases() are safe because of what index() established. *)
 From Coq Require Import ZArith NArith List Bool Lia ZifyBool ZifyNat ZifyN.
-From NV Require Import Base.Percent.
 From NV Require Import Bcf.Ints Bcf.IntsProofs Bcf.Typed Bcf.Strings Bcf.Genotype Bcf.StringMap Bcf.Record
   Bcf.RecordTyped Bcf.NeverPanics Bcf.Lazy.
 Import ListNotations.
@@ -291,23 +290,14 @@ Section Views.
     destruct (width_of_code c) as [w|]; [apply lz_filter_entries_np|contradiction].
   Qed.
 
-  Lemma lz_char_piece_np : forall p, lz_char_piece p <> RPanic.
-  Proof. intros p. unfold lz_char_piece. np. Qed.
-  Lemma lz_str_piece_np : forall p, lz_str_piece p <> RPanic.
-  Proof. intros p. unfold lz_str_piece. np. Qed.
-  Lemma lz_chars_np : forall s, lz_chars s <> RPanic.
-  Proof. intros s. unfold lz_chars. destruct s; [discriminate|]. apply map_rres_np. apply lz_char_piece_np. Qed.
-  Lemma lz_strs_np : forall s, lz_strs s <> RPanic.
-  Proof. intros s. unfold lz_strs. destruct s; [discriminate|]. apply map_rres_np. apply lz_str_piece_np. Qed.
-
   Lemma lz_info_kind_np : forall k vb, lz_info_kind k vb <> RPanic.
   Proof.
     intros k vb. unfold lz_info_kind.
     destruct k as [a|a| |a|a]; try apply dec_info_kind_np; destruct a; try apply dec_info_kind_np.
-    - unfold lz_info_chars. apply rbind_np; [apply dec_info_string_np|]. intros [s|]; [|discriminate].
-      apply rbind_np; [apply lz_chars_np|discriminate].
-    - unfold lz_info_strs. apply rbind_np; [apply dec_info_string_np|]. intros [s|]; [|discriminate].
-      apply rbind_np; [apply lz_strs_np|discriminate].
+    - unfold lz_info_chars. apply rbind_np; [apply dec_info_string_np|]. intros [s|]; discriminate.
+    - unfold lz_info_char. apply rbind_np; [apply dec_info_string_np|]. intros [s|]; [|discriminate].
+      destruct (utf8_chars s) as [|c [|c2 r]]; discriminate.
+    - apply (dec_info_kind_np (KStr true)).
   Qed.
 
   Lemma lz_info_fields_np : forall strings ik n bs, lz_info_fields strings ik n bs <> RPanic.
@@ -337,21 +327,25 @@ Proof. intros w x. unfold lz_int_scalar. np. Qed.
 Lemma lz_float_scalar_np : forall x, lz_float_scalar x <> RPanic.
 Proof. intros x. unfold lz_float_scalar. np. Qed.
 
+Lemma lz_first_char_np : forall p, lz_first_char p <> RPanic.
+Proof. intros p. unfold lz_first_char. destruct (utf8_first p) as [[c r]|]; discriminate. Qed.
+
 Lemma lz_string_cell_np : forall k x, lz_string_cell k x <> RPanic.
 Proof.
   intros k x. unfold lz_string_cell, lz_cell_string. destruct (utf8_valid (until_nul x)); [|discriminate].
   cbn [rbind]. destruct k as [sc|sc|sc|sc]; try discriminate; destruct sc.
-  - destruct (utf8_first (until_nul x)) as [[c r]|]; discriminate.
-  - apply rbind_np; [apply lz_chars_np|discriminate].
+  - apply rbind_np; [apply lz_first_char_np|discriminate].
+  - apply rbind_np; [apply map_rres_np; apply lz_first_char_np|discriminate].
   - discriminate.
-  - apply rbind_np; [apply lz_strs_np|discriminate].
+  - discriminate.
 Qed.
 
 Lemma lz_cell_np : forall v44 isgt kd s i, lz_cell v44 isgt kd s i <> RPanic.
 Proof.
   intros v44 isgt kd s i. unfold lz_cell. cbv zeta.
   destruct isgt.
-  - destruct (se_code s =? 1); [|discriminate]. destruct (lz_get _ _ _); discriminate.
+  - destruct (se_code s =? 1); [|discriminate]. destruct (se_len s =? 0); [discriminate|].
+    destruct (lz_get _ _ _); discriminate.
   - destruct kd as [k|]; [|discriminate].
     destruct ((se_len s =? 0) && negb (se_code s =? 7)); [discriminate|].
     destruct k as [sc|sc|sc|sc]; destruct (width_of_code (se_code s)) as [w|]; try discriminate.
@@ -382,7 +376,7 @@ Proof.
   rewrite (lz_sample_count_ok bd sb Hok). cbn [rbind].
   destruct (lz_format_count_ok bd sb Hok) as [b [_ Hf]]. rewrite Hf. cbn [rbind]. cbv zeta.
   destruct (lz_validate _ _ ib); [|discriminate].
-  destruct (lz_all_series _ _ ib) as [ss|]; [|discriminate].
+  destruct (lz_n_series _ _ ib) as [ss|]; [|discriminate].
   apply rbind_np; [apply lz_names_np|]. intros nms.
   apply rbind_np; [apply lz_columns_np|discriminate].
 Qed.
@@ -409,10 +403,7 @@ Proof.
   rewrite (lz_sample_count_ok bd sb Ei). cbn [rbind]. discriminate.
 Qed.
 
-(* ---------------------------------------------------------------- the fuels are enough *)
-(* the two loops that are not structural (Filters::indices over chunks, Samples::series until the block
-   is empty) run on a fuel equal to the length of their input; every step consumes at least one byte,
-   so the out-of-fuel branch is never taken: any larger fuel gives the same result *)
+(* ---------------------------------------------------------------- the series of the block *)
 Lemma lz_series_consumes : forall ns bs s r, lz_series ns bs = Some (s, r) -> (length r < length bs)%nat.
 Proof.
   intros ns bs s r H. unfold lz_series in H.
@@ -432,15 +423,43 @@ Proof.
   rewrite Hr2, app_length in E1. lia.
 Qed.
 
-Lemma lz_all_series_fuel : forall n ns bs f1 f2, (length bs <= n)%nat -> (n <= f1)%nat -> (n <= f2)%nat ->
-  lz_all_series f1 ns bs = lz_all_series f2 ns bs.
+(* Samples::validate accepts exactly when the series iterator yields format_count series: after
+   Record::samples() succeeded, Samples::series never returns an error *)
+Lemma lz_validate_n_series : forall ns nf bs,
+  lz_validate ns nf bs = true <-> exists ss, lz_n_series ns nf bs = Some ss /\ length ss = nf.
 Proof.
-  induction n as [|n IH]; intros ns bs f1 f2 Hn H1 H2.
-  - destruct bs; [|cbn [length] in Hn; lia]. destruct f1, f2; reflexivity.
-  - destruct bs as [|b bs]; [destruct f1, f2; reflexivity|].
-    destruct f1 as [|f1]; [lia|]. destruct f2 as [|f2]; [lia|].
-    cbn [lz_all_series]. destruct (lz_series ns (b :: bs)) as [[s r]|] eqn:E; [|reflexivity].
-    apply lz_series_consumes in E. rewrite (IH ns r f1 f2); [reflexivity| | |]; cbn [length] in *; lia.
+  intros ns. induction nf as [|nf IH]; intros bs; cbn [lz_validate lz_n_series].
+  - split; [intros _; exists []; split; reflexivity|reflexivity].
+  - destruct (lz_series ns bs) as [[s r]|]; [|split; [discriminate|intros [ss [H _]]; discriminate]].
+    rewrite IH. split.
+    + intros [ss [H Hl]]. rewrite H. exists (s :: ss). split; [reflexivity|cbn [length]; lia].
+    + intros [ss [H Hl]]. destruct (lz_n_series ns nf r) as [l|]; [|discriminate].
+      injection H as Hs. subst ss. exists l. split; [reflexivity|cbn [length] in Hl; lia].
+Qed.
+
+(* ---------------------------------------------------------------- the fuels are enough *)
+(* the two loops that are not structural (Filters::indices over chunks, str::chars) run on a fuel equal
+   to the length of their input; every step consumes at least one byte, so the out-of-fuel branch is
+   never taken: any larger fuel gives the same result *)
+Lemma utf8_first_consumes : forall s c r, utf8_first s = Some (c, r) -> (length r < length s)%nat.
+Proof.
+  intros s c r H. destruct s as [|b t]; [discriminate|]. cbn [utf8_first] in H.
+  destruct (b <? 128)%N; [injection H as _ Hr; subst r; cbn [length]; lia|].
+  destruct (b <? 224)%N.
+  { destruct t as [|c1 r1]; [discriminate|]. injection H as _ Hr. subst r. cbn [length]. lia. }
+  destruct (b <? 240)%N.
+  { destruct t as [|c1 [|c2 r2]]; try discriminate. injection H as _ Hr. subst r. cbn [length]. lia. }
+  destruct t as [|c1 [|c2 [|c3 r3]]]; try discriminate. injection H as _ Hr. subst r. cbn [length]. lia.
+Qed.
+
+Lemma utf8_chars_fuel_enough : forall n s f1 f2, (length s <= n)%nat -> (n <= f1)%nat -> (n <= f2)%nat ->
+  utf8_chars_fuel f1 s = utf8_chars_fuel f2 s.
+Proof.
+  induction n as [|n IH]; intros s f1 f2 Hn H1 H2.
+  - destruct s; [|cbn [length] in Hn; lia]. destruct f1, f2; reflexivity.
+  - destruct f1 as [|f1]; [lia|]. destruct f2 as [|f2]; [lia|]. cbn [utf8_chars_fuel].
+    destruct (utf8_first s) as [[c r]|] eqn:E; [|reflexivity].
+    apply utf8_first_consumes in E. rewrite (IH r f1 f2); [reflexivity| | |]; lia.
 Qed.
 
 Lemma lz_filter_entries_fuel : forall w n bs f1 f2, (length bs <= n)%nat -> (n <= f1)%nat -> (n <= f2)%nat ->
